@@ -71,7 +71,14 @@ static void c01_case(const uint8_t* src, size_t n) {
   ta_reset_stats();
   struct cbor_load_result r;
   memset(&r, 0xA5, sizeof r);
+  VH_POISON(&r, sizeof r); /* msan flavour: a field the library leaves unwritten stays poisoned */
   cbor_item_t* it = cbor_load(in, n, &r);
+  {
+    long u1 = VH_UNINIT_AT(&r.error.code, sizeof r.error.code), u2 = VH_UNINIT_AT(&r.error.position, sizeof r.error.position), u3 = VH_UNINIT_AT(&r.read, sizeof r.read);
+    if (u1 >= 0 || (!it && (u2 >= 0 || u3 >= 0)))
+      vh_violation("result-field-uninitialised", "cbor_load %s but left result.%s uninitialised", it ? "returned an item" : "failed", u1 >= 0 ? "error.code" : u2 >= 0 ? "error.position" : "read");
+    VH_UNPOISON(&r, sizeof r);
+  }
   bool nontrivial = false;
   if (it) {
     VH_COUNT("outcome.item", 1);
@@ -85,6 +92,7 @@ static void c01_case(const uint8_t* src, size_t n) {
     if (sz) {
       uint8_t* out = malloc(sz);
       size_t w = cbor_serialize(it, out, sz);
+      if (w && w <= sz) { long u = VH_UNINIT_AT(out, w); if (u >= 0) vh_violation("serialized-uninitialised-memory", "byte %ld of the %zu serialized bytes was never written / comes from uninitialised memory", u, w); }
       if (w) { volatile uint8_t s = 0; for (size_t i = 0; i < w && i < sz; i++) s ^= out[i]; (void)s; }
       free(out);
     }
@@ -510,8 +518,10 @@ static void stage_gram(void) {
   uint64_t nrand = O.budget ? O.budget : (O.thorough ? 300000 : 30000);
   struct gen_cfg cfg = {.max_nodes = 14, .max_depth = 6, .nonminimal = true, .assigned_simple_only = true};
   struct vh_buf x = {0};
+  uint64_t sys_stride = O.budget2 ? O.budget2 : 1; /* lighter stages take every n-th systematic item */
   for (uint64_t u = 0; u < nsys + nrand; u++) {
-    if ((int)(u % (uint64_t)O.nshards) != O.shard) continue;
+    if (u < nsys && (u % sys_stride) != 0) continue;
+    if ((int)((u / (u < nsys ? sys_stride : 1)) % (uint64_t)O.nshards) != O.shard) continue;
     rnode* t;
     if (u < nsys) t = gen_systematic(u);
     else {
